@@ -564,7 +564,117 @@ def end_to_end_second(ctx: Ctx, RULE: str = "R1.e2"):
             ctx.decide(diff is None, RULE, site, f"{len(full)} items agree", f"{desc}: {diff}", where=where(fi, fi.node))
 
 
+# ------------------------------------------------------------------------------------ third document (hand-written XML)
+def ref_third(apid: int, user: bytes):
+    """Reference decoding of the hand-written document (xmlcommon.third_text)."""
+    b = Bits(user)
+    id_, mode = b.u(8), b.u(8)
+    items = [("ID", "Int", id_, id_), ("MODE", "Int", mode, mode)]
+    if 100 <= apid < 200:
+        ta, tr = b.u(16), b.u(16)
+        items.append(("T_ABS", "Float", 0.5 * ta + 100.0, ta))          # XTCE: value = scale * raw + offset
+        items.append(("T_REL", "Float", tr - 3.5, tr))
+        su = b.s_(16)
+        items.append(("SU", "Int", su, su))                            # the encoding says two's complement; `signed` on the type does not
+        us = b.u(8)
+        items.append(("US", "Int", us, us))
+        return "ok", items
+    if 200 <= apid < 300:
+        cc = b.u(8)
+        if mode == 1:
+            items.append(("CC", "Float", 2.0 * cc, cc))                 # the first context that tests true, in document order
+        elif mode <= 2 and id_ >= 5:
+            items.append(("CC", "Float", 3.0 * cc + 7.0, cc))
+        else:
+            items.append(("CC", "Float", cc + 0.5, cc))
+        sp = b.u(8)
+        assert 0 <= sp <= 20 and sp != 10, "reference: SP outside the spline or on its step"
+        items.append(("SP", "Float", float(sp) if sp < 10 else 20.0 + (sp - 10) * 1.0, sp))
+        raw = b.bytes_right(64)
+        i = next((j for j in range(0, 8, 2) if raw[j:j + 2] == b"!\x00"), None)
+        assert i is not None, "reference: STR without terminator"
+        items.append(("STR", "Str", raw[:i].decode("utf-16-le"), raw))
+        return "ok", items
+    if apid >= 300 and id_ == 10:                                       # value="010" is the decimal number ten
+        y = b.u(8)
+        items.append(("Y8", "Int", y, y))
+        return "ok", items
+    return "unrecognized", items                                        # ID == 1 and ID == 2 never both hold
+
+
+def third_cases():
+    s16 = lambda v: (v & 0xFFFF).to_bytes(2, "big")
+    A = lambda id_, mode, ta, tr, su, us: bytes([id_, mode]) + s16(ta) + s16(tr) + s16(su) + bytes([us])
+    B = lambda id_, mode, cc, sp, text: bytes([id_, mode, cc, sp]) + (text.encode("utf-16-le") + b"!\x00" + b"\xee" * 8)[:8]
+    cases = [
+        ("time encoding with scale 0.5 and offset 100; two's complement under signed=\"false\"; lower end of the APID range", 100, A(0, 0, 1000, 7, -42, 200)),
+        ("upper end of the APID range 100..199; most negative 16-bit value", 199, A(9, 9, 0, 0, -32768, 255)),
+        ("APID below every range", 99, A(0, 0, 1, 1, 1, 1)),
+        ("APID 50 (only the second comparison of the range holds)", 50, A(0, 0, 1, 1, 1, 1)),
+        ("first context (one comparison) and second context (two comparisons) both hold: document order decides", 200, B(7, 1, 10, 5, "HI")),
+        ("only the second context holds", 250, B(5, 2, 10, 15, "A")),
+        ("no context holds: default calibrator", 299, B(4, 2, 10, 19, "")),
+        ("contradictory equalities on one parameter never match (ID=1)", 300, bytes([1, 0, 5])),
+        ("contradictory equalities on one parameter never match (ID=2)", 301, bytes([2, 0, 5])),
+        ("zero-padded literal 010 is decimal ten (ID=10)", 300, bytes([10, 0, 0x5A])),
+        ("zero-padded literal 010 is not eight (ID=8)", 2047, bytes([8, 0, 0x5A])),
+        ("the idle APID 2047 is described by the document like any other (ID=10)", 2047, bytes([10, 3, 0xA5])),
+        ("APID 0", 0, bytes([10, 3, 0xA5])),
+    ]
+    return cases
+
+
+def end_to_end_third(ctx: Ctx, RULE: str = "R1.e3"):
+    from ..xmlmodel import parse_text
+    prog = ctx.prog
+    fi = prog.func(GEN)
+    h = X.harness(prog)
+    try:
+        d = X.load(h, parse_text(X.third_text()), "xtce")
+    except Raised as r:
+        ctx.refuted(RULE, f"{GEN}::hand-written document", f"the checker's hand-written document fails to load: {r.exc.tname} {r.exc.args}")
+        return
+    cases = third_cases()
+    for report in (False, True):
+        for desc, apid, user in cases:
+            site = f"{GEN}::hand-written document::report_unrecognized={report}::{desc[:70]}"
+            try:
+                kind, want = ref_third(apid, user)
+            except AssertionError as e:
+                ctx.unknown(RULE, site, str(e))
+                continue
+            try:
+                h.it.events.clear()
+                k, got = h.outcome("d.packet_generator(src, yield_unrecognized_packet_errors=rep)", DEF, d=d,
+                                   src=ccsds_bytes(user, apid=apid), rep=report)
+            except (Unsupported, StepLimit) as e:
+                ctx.unknown(RULE, site, str(e))
+                continue
+            if k != "ok":
+                ctx.refuted(RULE, site, f"{desc}: decoding ends in {got}", where=where(fi, fi.node))
+                continue
+            full = header_items(apid, len(user)) + want
+            if kind == "unrecognized":
+                if not report:
+                    ctx.decide(len(got) == 0, RULE, site, "skipped", f"{desc}: {len(got)} item(s) yielded ({[sorted(y) if isinstance(y, dict) else y for y in got]!r}); "
+                               f"no container of the document describes this packet", where=where(fi, fi.node))
+                else:
+                    y = got[0] if len(got) == 1 else None
+                    pd = y.kwargs.get("partial_data") if isinstance(y, ExcVal) else None
+                    ok = isinstance(y, ExcVal) and y.tname == "UnrecognizedPacketTypeError" and isinstance(pd, dict) and item_diff(pd, full) is None
+                    ctx.decide(ok, RULE, site, "reported with the values decoded so far",
+                               f"{desc}: yielded {y!r}{' with partial data: ' + str(item_diff(pd, full)) if isinstance(pd, dict) else ''}; expected an "
+                               f"unrecognized-packet report carrying the root container's items", where=where(fi, fi.node))
+                continue
+            if len(got) != 1 or not isinstance(got[0], dict):
+                ctx.refuted(RULE, site, f"{desc}: yielded {got!r} instead of one parsed packet", where=where(fi, fi.node))
+                continue
+            diff = item_diff(got[0], full)
+            ctx.decide(diff is None, RULE, site, f"{len(full)} items agree", f"{desc}: {diff}", where=where(fi, fi.node))
+
+
 def check(ctx: Ctx) -> None:
+    ctx.guard("R1.e3", GEN, end_to_end_third, ctx)
     ctx.guard("R1.e2", GEN, end_to_end_second, ctx)
     ctx.guard("R1.1", DEF, registries, ctx)
     ctx.guard("R1.2", DEF, dispatch, ctx)
@@ -600,7 +710,7 @@ SPEC = PropSpec(
     pid="C01",
     title="End-to-end decoding conforms to the XTCE document for every stream",
     check=check,
-    floors={"R1.e2": 10, "R1.1": 15, "R1.2": 12, "R1.e": 12},
+    floors={"R1.e3": 20, "R1.e2": 10, "R1.1": 15, "R1.2": 12, "R1.e": 12},
     fallback={"R1.1": ("R1.e", "R1.e2"), "R1.2": ("R1.e", "R1.e2")},
     explanation=("Skeleton rules that hold for every document and stream: R1.1 the tag->class registry of parameter types and "
                  "the class lists tried for encodings and default calibrators contain every concrete class under its own "
